@@ -506,3 +506,81 @@ func TestC19ParallelDirections(t *testing.T) {
 		col.Case(true, hx.JSON(desc), func() any { return desc })
 	})
 }
+
+// TestC19Soak: one long session: events of more than a thousand distinct kinds (each counted
+// under its own label, early ones repeated at the end) and hundreds of subscriptions opened
+// and ended; the exported values are compared at checkpoints and at the end.
+func TestC19Soak(t *testing.T) {
+	col := ev.For("C19").SetRule(c19Rule)
+	rapid.Check(t, func(t *rapid.T) {
+		reg := prometheus.NewRegistry()
+		mw := mocprom.NewPrometheusMiddleware(reg)
+		rig := NewRig(func(h mocrelay.Handler) mocrelay.Handler { return mocrelay.Middleware(mw)(h) })
+		model := newPromModel()
+		s, err := rig.Start()
+		if err != nil {
+			hx.Fail(t, ev.Failure{Property: "C19", Signature: "session-start", Clause: "a session starts", Observed: err.Error()})
+		}
+		defer s.End()
+		model.conns++
+		model.open[0] = map[string]bool{}
+		nk := rapid.SampledFrom([]int{300, 1023, 1024, 1025, 1100, 2100}).Draw(t, "distinct_kinds")
+		nsub := rapid.SampledFrom([]int{50, 255, 256, 257, 600}).Draw(t, "ended_subscriptions")
+		desc := map[string]any{"mode": "soak", "distinct_kinds": nk, "ended_subscriptions": nsub}
+		step := 0
+		do := func(op c19Op) {
+			step++
+			var err error
+			if op.Kind[:3] == "SRV" {
+				_, err = s.Emit(c19ServerMsg(op))
+				model.applyServer(0, op)
+			} else {
+				_, _, err = s.Step(c19ClientMsg(op))
+				model.applyClient(0, op)
+			}
+			if err != nil {
+				desc["failed_step"] = step
+				hx.Fail(t, ev.Failure{Property: "C19", Signature: "stalled", Clause: "messages pass the middleware", Case: desc, Observed: err.Error()})
+			}
+			if step%257 == 0 {
+				if why := model.compare(reg); why != "" {
+					desc["failed_step"] = step
+					hx.Fail(t, ev.Failure{Property: "C19", Signature: "metrics-mismatch", Clause: "at every quiescent point the exported values equal reality (long session)", Case: desc, Observed: why})
+				}
+			}
+		}
+		for k := 0; k < nk; k++ {
+			do(c19Op{Kind: "EVENT", ID: "x", K: int64(k)})
+			if k%3 == 0 {
+				do(c19Op{Kind: "EVENT", ID: "y", K: int64(k % 7)}) // the early kinds again and again
+			}
+		}
+		for i := 0; i < nsub; i++ {
+			id := fmt.Sprint("s", i)
+			do(c19Op{Kind: "REQ", ID: id})
+			switch i % 3 {
+			case 0:
+				do(c19Op{Kind: "CLOSE", ID: id})
+			case 1:
+				do(c19Op{Kind: "SRV-CLOSED", ID: id})
+			default:
+				do(c19Op{Kind: "REQ", ID: id}) // re-REQ, then close
+				do(c19Op{Kind: "CLOSE", ID: id})
+			}
+			if i%50 == 49 {
+				do(c19Op{Kind: "REQ", ID: "kept" + id}) // a few stay open until the end
+			}
+		}
+		if why := model.compare(reg); why != "" {
+			hx.Fail(t, ev.Failure{Property: "C19", Signature: "metrics-mismatch", Clause: "at every quiescent point the exported values equal reality (end of a long session)", Case: desc, Observed: why})
+		}
+		s.End()
+		model.conns--
+		delete(model.open, 0)
+		if why := model.compare(reg); why != "" {
+			hx.Fail(t, ev.Failure{Property: "C19", Signature: "metrics-mismatch-at-end", Clause: "after the session ended the gauges are back to zero and the counters keep their totals", Case: desc, Observed: why})
+		}
+		col.Label("mode:soak")
+		col.Case(true, hx.JSON(desc), func() any { return desc })
+	})
+}
